@@ -191,6 +191,53 @@ def check_pipeline(rep: Report, rng, n_random, drv_lines, sink):
         rep.hist("pipeline_outcome", f"{solver} noise={bool(nm.noise_types)} -> {out}")
 
 
+DEV_NOISES = [{"p_false_pos": 0.01, "p_false_neg": 0.02, "state_prep_error": 0.0},
+              {"temperature": 30.0, "runs": 1, "samples_per_run": 1},
+              {"amp_sigma": 0.05, "runs": 1, "samples_per_run": 1},
+              {"relaxation_rate": 0.1}, {"dephasing_rate": 0.2},
+              {"relaxation_rate": 0.1, "p_false_pos": 0.01, "p_false_neg": 0.0, "state_prep_error": 0.0}]
+CFG_NOISES = [{}, {"p_false_pos": 0.01, "p_false_neg": 0.02, "state_prep_error": 0.0}, {"relaxation_rate": 0.1}]
+
+
+def device_case(dev, cfgz, prefer, solver):
+    """A real ground-rydberg Pulser sequence on a device with default noise model `dev`, run with
+    `prefer_device_noise_model=prefer` and `config.noise_model=cfgz`.
+    → (outcome, effective noise types, failure message | None)"""
+    out, basis, data, cfg, info = L.sequence_real("mps", "gr", cfgz, solver, dev_noise=dev, prefer=prefer)
+    eff = L.noise_model(dev if prefer else cfgz)
+    msg = None
+    if solver == "dmrg" and eff.noise_types != () and out.startswith("emulate"):
+        msg = (f"DMRG returned Results although the noise model in effect has {eff.noise_types} "
+               f"(prefer_device_noise_model={prefer}, config.noise_model.noise_types="
+               f"{L.noise_model(cfgz).noise_types})")
+    return out, eff, msg
+
+
+def check_device_noise(rep: Report, lines, sink):
+    """Finding D20: the DMRG noise refusal reads config.noise_model, not the noise model in effect."""
+    for dev in DEV_NOISES:
+        for cfgz in CFG_NOISES:
+            for prefer in (False, True):
+                for solver in ("dmrg", "tdvp"):
+                    out, eff, msg = device_case(dev, cfgz, prefer, solver)
+                    if out == "pulser-refused":
+                        rep.count("device_pulser_refused")
+                        continue
+                    spec = dict(kind="device", dev=dev, cfg=cfgz, prefer=prefer, solver=solver)
+                    if msg:
+                        # narrow class: device noise model + prefer_device_noise_model + empty config noise model
+                        klass = ("dmrg-ignores-device-noise-model"
+                                 if prefer and L.noise_model(cfgz).noise_types == () else "dmrg-emulates-noise")
+                        rep.fail(msg, spec, klass=klass)
+                    for fixed in ("0", "1"):     # current tree / proposed repair of D20 (run() checks the effective model)
+                        lines.append(" ".join(["config.acceptdev", fixed, "mps", "ising", "2", "1" if prefer else "0",
+                                               ",".join(L.kinds_of(L.noise_model(cfgz))) or "-",
+                                               ",".join(L.kinds_of(L.noise_model(dev))) or "-", solver]))
+                        sink.append(("device" if fixed == "0" else "device-fixed", spec, out))
+                    rep.hist("device_outcome", f"{solver} prefer={prefer} effective_noise={bool(eff.noise_types)} "
+                                               f"cfg_noise={bool(L.noise_model(cfgz).noise_types)} -> {out}")
+
+
 def check(rep: Report, tier: str, seed: int) -> None:
     rep.rule = ("MPSConfig cases = full boundary grid (18 precisions x 15 tolerances incl. ints, 0, -0.0, negative, "
                 "1e-300, exact-floor products; 16 autosave_dt incl. 10, 10.0, nextafter(10,+-inf), 10.0000001, ints, "
@@ -217,6 +264,7 @@ def check(rep: Report, tier: str, seed: int) -> None:
     check_mk(rep, full_grid() + [gen_mk(rng, i) for i in range(1500 if quick else 40000)], lines, sink)
     check_impl(rep, gen_impl_specs(rng, 200 if quick else 5000), lines, sink)
     check_pipeline(rep, rng, 60 if quick else 1500, lines, sink)
+    check_device_noise(rep, lines, sink)
     rep.extra["t_real_code_s"] = round(time.time() - t0 - rep.extra["t_lean_stage_s"], 1)
     try:
         model = Driver().batch(lines)
@@ -225,7 +273,18 @@ def check(rep: Report, tier: str, seed: int) -> None:
         model = [None] * len(lines)
     rep.extra["t_total_s"] = round(time.time() - t0, 1)
     dis = 0
+    variant = {"asFound": 0, "repaired": 0}
+    pending = None
     for line, (kind, spec, out), mo in zip(lines, sink, model):
+        if kind == "device":
+            pending = mo
+            continue
+        if kind == "device-fixed":
+            # variant resolution for finding D20: the real code must match the current-tree model or the repaired one
+            if mo is not None and pending != mo:
+                variant["asFound" if out == pending else ("repaired" if out == mo else "neither")] = \
+                    variant.get("asFound" if out == pending else ("repaired" if out == mo else "neither"), 0) + 1
+            mo = pending if out == pending else mo
         nontrivial = (out.startswith("raise") or out.endswith(" 0")
                       or (kind == "mk" and out.split()[1] != f2b(float(spec["e"]))))
         rep.case(key=line, nontrivial=nontrivial, sample=dict(kind=kind, spec=spec, outcome=out))
@@ -234,6 +293,7 @@ def check(rep: Report, tier: str, seed: int) -> None:
             if dis <= 5:
                 rep.broke(f"correspondence Model.Config vs real code ({kind}): spec={L.jd(spec)[:500]} "
                           f"model={mo} impl={out}")
+    rep.extra["device_noise_variant_matches"] = variant
     rep.extra["correspondence_disagreements"] = dis
     if rep.broken and not rep.failing:
         search(rep, seed, 4000 if quick else 60000)
@@ -279,6 +339,8 @@ def replay(rep: Report, path: str) -> int:
                 msg = f"create_impl returned {shown} for DMRG with noise"
             elif shown.startswith("ok") and (shown == "ok dmrg") != (feat["solver"] == "dmrg"):
                 msg = f"create_impl returned {shown} for solver={feat['solver']}"
+        elif d["kind"] == "device":
+            shown, _, msg = device_case(d["dev"], d["cfg"], d["prefer"], d["solver"])
         else:
             shown, *_ = L.pipeline_real("mps", d["it"], d["dim"], d["noise"], d["solver"])
             if d["solver"] == "dmrg" and L.noise_model(d["noise"]).noise_types != () and shown.startswith("emulate"):
